@@ -222,7 +222,11 @@ def main(argv=None):
         'violation_signatures': sorted(violations),
     }
     if exh_complete is not None:
-        coverage['exhaustive'] = bool(exh_complete) and not harness_errors
+        # `exhaustive` is reserved for checks whose *whole* quantified domain is finite and was enumerated (C18: all valid codes);
+        # everywhere else only a named sub-space is enumerated completely and the rest of the domain is sampled
+        sub_ok = bool(exh_complete) and not harness_errors
+        coverage['exhaustive'] = sub_ok and bool(getattr(mod, 'FULLY_EXHAUSTIVE', False))
+        coverage['exhaustive_subspace_complete'] = sub_ok
         coverage['exhaustive_subspace_cases'] = exh_count
         coverage['exhaustive_subspace'] = getattr(mod, 'EXHAUSTIVE_NOTE', {}).get(tier, '') if isinstance(getattr(mod, 'EXHAUSTIVE_NOTE', None), dict) else getattr(mod, 'EXHAUSTIVE_NOTE', '')
     if extra:
